@@ -653,6 +653,9 @@ pub fn run_history(root: &str, scn: &mut Scn, oracle: &mut Oracle, st: &mut Stat
             result = Some(f);
             break;
         }
+        if rec_after != before || reject {
+            st.effects += 1;
+        }
         if inv.class != FaultClass::None {
             let plan = if inv.plan.is_empty() {
                 let mut fr = Rng::new(inv.fault_seed);
@@ -932,10 +935,11 @@ pub fn main_c20(tier_name: &str, seed: u64) -> i32 {
         for i in (c * chunk)..((c + 1) * chunk).min(total) {
             let mut scn = scenario_for(&d, seed, &tr, i);
             let before_judged = st.judged;
+            let before_effects = st.effects;
             let f = run_history(&root, &mut scn, &mut oracle, &mut st);
             let mut fd = Fnv::new();
             fd.str(&serde_json::to_string(&scn).unwrap());
-            digests.push((fd.0, st.judged > before_judged));
+            digests.push((fd.0, st.judged > before_judged && st.effects > before_effects));
             if i % 499 == 0 && samples.len() < 3 {
                 let conf = scn.files.iter().find(|(k, _)| k.ends_with(".asca")).map(|(_, v)| v.clone()).unwrap_or_default();
                 samples.push(json!({"scenario_index": i, "config": conf, "bad": scn.project.bad, "invocations": scn.invs.iter().map(|x| format!("asca {} [answer {} class {:?} plan {}]", x.cmd.argv().join(" "), x.answer, x.class, cli::plan_string(&x.plan))).collect::<Vec<_>>()}));
@@ -1077,7 +1081,7 @@ pub fn main_c20(tier_name: &str, seed: u64) -> i32 {
         level: "exploration".into(),
         evaluations: st.invocations,
         distinct_nontrivial: distinct.len() as u64,
-        rule: "a case is one history (project tree of 1-4 tags + 1-6 seq/conv-tag invocations + fault plans; a separate sub-batch has cyclic, dangling and duplicate-tag configs); distinct by digest of the explicit scenario including the drawn plans; non-trivial when at least one invocation was executed and judged against the reference model".into(),
+        rule: "a case is one history (project tree of 1-4 tags + 1-6 seq/conv-tag invocations + fault plans; a separate sub-batch has cyclic, dangling and duplicate-tag configs); distinct by digest of the explicit scenario including the drawn plans; non-trivial when at least one invocation was judged against the reference model AND changed the simulated disk, had an injected fault fire, or was a bad config that had to be rejected".into(),
         samples,
         exhaustive: false,
         extra,
